@@ -147,6 +147,52 @@ def run(ctx, rep):
                 rep.check(not esc, 'R-C08-2', '%s: ++%s (%s)' % (fname, counter, where), inc.loc(),
                           'followed by %s=1 or bail on every path' % flag if not esc else '++%s can reach the next stripe without %s=1: the stripe is neither left unsynced nor marked bad' % (counter, flag),
                           function=fname, construct='++%s in %s without %s' % (counter, where, flag))
+        # R-C08-2s: scrub works on stripes that ARE recorded as synced and healthy: leaving the loop through `bail` (error limit reached,
+        # fatal state) without a bad mark leaves the stripe that just failed recorded as healthy.  Every i/o or silent error counted in
+        # the scrub loop must reach the bad mark on every path, including the one that stops the run.
+        if fname == 'state_scrub_process':
+            rep.rule('R-C08-2s', 'scrub: every counted i/o error of a stripe reaches info_set_bad of that stripe before the next stripe, bail or return (also when the error limit stops the run)', 2)
+            marks = [c_ for c_ in f.calls('info_set_bad')]
+            prod_r = set()
+            for kind_ in ('data', 'parity'):
+                for cb in cbs[kind_]:
+                    prod_r |= {k for _, k in task_state_stores(P.fn(cb)) if k is not None}
+            for inc in L.increments('io_error'):
+                if inc.block not in L.body:
+                    continue
+                # increments under a task state no reader callback produces are dead code
+                gsx = [f.xexpr(f.term(b_).ops[0]) for b_ in range(len(f.blocks)) if f.term(b_).op == 'br' and len(f.term(b_).ops) == 3 and f.edge_dominates(f.term(b_), f.term(b_).ops[2][1], inc) and 'task->state' in f.xexpr(f.term(b_).ops[0])]
+                import re as _re2
+                sts = [int(m_.group(1)) for g_ in gsx[-1:] for m_ in _re2.finditer(r'task->state==(-?\d+)', g_.replace(' ', ''))]
+                if sts and sts[0] not in prod_r:
+                    rep.notes.append('%s: reader state %d is handled but never produced' % (fname, sts[0]))
+                    continue
+                # setting the per-stripe flag is as good as the mark: R-C04-4 shows that every tuple with the flag set flows to the mark
+                r_ = f.reach([inc], stop={m_.id for m_ in marks} | {x.id for x in L.flag_stores('io_error_on_this_block', 1)})
+                leaves = [x for x in [header_first] + ends + [L.block_first(b) for b in L.bail] + f.returns() if x.id in r_]
+                rep.check(not leaves, 'R-C08-2s', '%s: ++io_error at line %s reaches the bad mark' % (fname, inc.line), inc.loc(),
+                          'bad mark on every path' if not leaves else 'the i/o error counted here can leave the stripe loop (%s) without info_set_bad: the stripe that failed stays recorded as synced and healthy (status: no error, fix -e: nothing to do)' % sorted({'line %s' % x.line for x in leaves}),
+                          function=fname, construct='++io_error without bad mark')
+        # R-C08-2w: a writer error concerns a stripe that was already committed as synced when its write was queued: leaving through
+        # `bail` does not undo that (the content file is still saved with what was committed).  Every error state the writer callback can
+        # produce must therefore reach a bad mark before the loop goes on or the function leaves.
+        if cbs['writer'] and fname == 'state_sync_process':
+            rep.rule('R-C08-2w', 'sync: every error state a parity writer can report leads to a bad mark (info_set_bad) of the stripe before the next stripe / bail / return -- the stripe was committed before its write', 1)
+            prodw = set()
+            for cb in cbs['writer']:
+                prodw |= {k for _, k in task_state_stores(P.fn(cb)) if k is not None and k < 0}
+            sws = [f.term(b) for b in range(len(f.blocks)) if f.term(b).op == 'switch' and b in L.body]
+            marks = [c_ for c_ in f.calls('info_set_bad')]
+            for t_ in sws:
+                for cv, cb in t_.cases:
+                    if cv not in prodw:
+                        continue
+                    first = f.blocks[cb][0]
+                    r_ = f.reach([first], stop={m_.id for m_ in marks}, include_start=True)
+                    leaves = [x for x in [header_first] + ends + [L.block_first(b) for b in L.bail] + f.returns() if x.id in r_]
+                    rep.check(not leaves, 'R-C08-2w', '%s: writer state %d marks the stripe bad' % (fname, cv), first.loc(),
+                              'bad mark on every path' if not leaves else 'a parity write error (state %d) reaches %s without any bad mark: the stripe, already recorded as synced, is saved as synced and healthy' % (cv, sorted({'line %s' % x.line for x in leaves})),
+                              function=fname, construct='writer state %d without bad mark' % cv)
         # R-C08-4: writer results accumulated after the last io_write_next must be collected once the writers finished
         if cbs['writer']:
             readers_of_we = set()
@@ -249,6 +295,7 @@ def run(ctx, rep):
         verdict_rule(P, rep, 'R-C08-2v', fname)
     full_transfer_rule(P, rep)
     sticky_failure_rule(P, rep)
+    errno_class_rule(P, rep, 'R-C08-10')
     from .C15 import dirty_bit_rule
     dirty_bit_rule(P, rep, 'R-C08-9', 'state_scrub_process', {'info_set'})
 
@@ -433,13 +480,141 @@ def verdict_rule(P, rep, rid, fname):
         raise AnalysisBroken('%s: no error counter found' % fname)
     rets = [i for i in f.all_insts() if i.op == 'store' and f.expr(i.ops[1]) == '&retval' and f.const_of(i.ops[0]) == -1]
     used = set()
+    conds = []
     for b in range(len(f.blocks)):
         t = f.term(b)
         if t.op == 'br' and len(t.ops) == 3 and any(f.bdominates(s_, r.block) for r in rets for s_ in t.succ):
-            e = f.xexpr(t.ops[0])
-            for cn in counters:
-                if _re.search(r'(?<![a-z_])%s(?![a-z_])' % cn, e):
-                    used.add(cn)
+            conds.append(t.ops[0])
+    # `return cond ? -1 : 0;`: the returned value is a select (or the phi of a short conditional) with -1 on one arm
+    for r_ in [x for x in f.all_insts() if (x.op == 'ret' and x.ops) or (x.op == 'store' and f.expr(x.ops[1]) == '&retval')]:
+        v = f.inst_of(r_.ops[0])
+        if v is not None and v.op == 'select' and -1 in (f.const_of(v.ops[1]), f.const_of(v.ops[2])):
+            conds.append(v.ops[0]); rets.append(r_)
+        elif v is not None and v.op == 'phi' and any(f.const_of(o_) == -1 for o_ in v.ops):
+            rets.append(r_)
+            for pb in v.inc:
+                for q in [pb] + list(f.pred[pb]):
+                    tq = f.term(q)
+                    if tq.op == 'br' and len(tq.ops) == 3:
+                        conds.append(tq.ops[0])
+    for c_ in conds:
+        e = f.xexpr(c_)
+        for cn in counters:
+            if _re.search(r'(?<![a-z_])%s(?![a-z_])' % cn, e):
+                used.add(cn)
     rep.check(used == counters and bool(rets), rid, '%s: return -1 depends on %s' % (fname, ', '.join(sorted(counters))), rets[0].loc() if rets else f.file,
               'counters in the verdict: %s' % sorted(used) if used == counters and rets else 'the failing return does not depend on %s (it tests %s): those errors end with a successful exit status' % (sorted(counters - used), sorted(used)),
               function=fname, construct='verdict')
+
+
+ERRNO_NEUTRAL = {'strerror', '__errno_location', 'llvm.dbg.declare', 'llvm.dbg.value', 'llvm.va_start', 'llvm.va_end'}
+# libc calls whose failure IS the error being reported (their errno is the one the caller must see)
+IO_CALLS = {'pread', 'pwrite', 'read', 'write', 'open', 'open_noatime', 'fstat', 'close', 'lseek', 'fsync', 'ftruncate', 'fallocate', 'posix_fadvise'}
+
+
+def errno_transparent(g):
+    """g saves errno on entry and restores it before every return, with no call after the restoring store"""
+    saved = None
+    for i in g.blocks[0] if g.blocks else []:
+        if i.op == 'store':
+            v = g.inst_of(i.ops[0])
+            if v is not None and v.op == 'load':
+                c = g.inst_of(v.ops[0])
+                a = g.inst_of(i.ops[1])
+                if c is not None and c.op == 'call' and c.callee == '__errno_location' and a is not None and a.op == 'alloca':
+                    saved = a.id
+    if saved is None:
+        return False
+    restores = []
+    for i in g.all_insts():
+        if i.op == 'store':
+            v = g.inst_of(i.ops[0]); c = g.inst_of(i.ops[1])
+            if v is not None and v.op == 'load' and g.strip(v.ops[0]) == ['i', saved] and c is not None and c.op == 'call' and c.callee == '__errno_location':
+                restores.append(i)
+    if not restores:
+        return False
+    for r in g.returns():
+        if not g.must_pass(r, restores):
+            return False
+    # nothing is called after a restore
+    after = g.reach(restores)
+    return not any(c.id in after and (c.callee or '') not in ERRNO_NEUTRAL and not (c.callee or '').startswith('llvm.') for c in g.calls())
+
+
+def errno_class_rule(P, rep, rid):
+    """the reader / writer callbacks classify a failure of the storage layer as i/o error (stripe marked bad) or generic error by
+    testing errno == EIO AFTER handle_read / handle_open / parity_read / parity_write returned.  Between the failing system call and
+    the return those functions report the error through the logging functions: if a logging function can change errno (log file on a
+    full file-system: ENOSPC), the EIO is lost, the error is counted as a generic file error and the stripe is not marked bad.  Rule:
+    every function called in the storage function after its i/o call, on a path to a return, is errno-neutral or saves and restores
+    errno."""
+    rep.rule(rid, 'storage functions whose failure is classified by errno in the callers: everything they call between the failing i/o call and the return preserves errno', 4)
+    # the storage functions concerned: defined callees whose result precedes an `errno == EIO` test in a caller
+    S = {}
+    for f in P.defined():
+        if not (f.file or '').startswith('cmdline/'):
+            continue
+        for i in f.all_insts():
+            if i.op != 'icmp' or f.const_of(i.ops[1]) != 5:
+                continue
+            li = f.inst_of(i.ops[0])
+            c = f.inst_of(li.ops[0]) if li is not None and li.op == 'load' else None
+            if c is None or c.op != 'call' or c.callee != '__errno_location':
+                continue
+            cands = [x for x in f.calls() if x.callee_full in P.functions and not P.functions[x.callee_full].decl and f.dominates(x, i)]
+            if cands:
+                last = max(cands, key=lambda x: sum(1 for y in cands if f.dominates(y, x)))
+                S.setdefault(last.callee_full, []).append((f, i))
+    if len(S) < 4:
+        raise AnalysisBroken('errno classification sites not recognised (%s)' % sorted(S))
+    memo = {}
+    for name in sorted(S):
+        F = P.functions[name]
+        rep.analysed(F)
+        ios = [c for c in F.calls() if (c.callee or '') in IO_CALLS]
+        after_io = F.reach(ios) if ios else set()
+        # the failure-only part of the function: blocks from which no assignment of a non-failing result is reachable
+        okst = [i for i in F.all_insts() if i.op == 'store' and F.expr(i.ops[1]) == '&retval' and F.const_of(i.ops[0]) != -1]
+        if not okst:
+            raise AnalysisBroken('%s: success result not recognised' % name)
+        fail_only = set()
+        for b in range(len(F.blocks)):
+            r_ = F.reach([F.blocks[b][0]], include_start=True)
+            if not any(x.id in r_ for x in okst):
+                fail_only.add(b)
+        offenders = []
+        for c in F.calls():
+            if c.id not in after_io or c.block not in fail_only or not any(r.id in F.reach([c]) for r in F.returns()):
+                continue
+            cal = c.callee or ''
+            if cal in ERRNO_NEUTRAL or cal.startswith('llvm.') or cal in IO_CALLS:
+                continue
+            targets = [P.functions[c.callee_full]] if c.callee_full in P.functions else []
+            if c.callee is None:
+                targets = [P.functions[t] for t in P.indirect_targets(F, c) if t in P.functions]
+                if not targets:
+                    # function pointer parameter: every function whose address is passed for it by the callers
+                    ai = F.strip(c.target) if c.target else None
+                    targets = []
+                    for g_, _ in S[name]:
+                        for cc in g_.calls():
+                            if cc.callee_full == name:
+                                for o in cc.ops:
+                                    so = g_.strip(o)
+                                    if so[0] == 'f' and so[1] in P.functions:
+                                        targets.append(P.functions[so[1]])
+            if not targets:
+                offenders.append((c, cal or 'indirect call'))
+                continue
+            for t in targets:
+                if t.decl:
+                    offenders.append((c, base(t.name)))
+                    continue
+                if t.name not in memo:
+                    memo[t.name] = errno_transparent(t)
+                if not memo[t.name]:
+                    offenders.append((c, base(t.name)))
+        who = sorted({base(g_.name) for g_, _ in S[name]})
+        rep.check(not offenders, rid, '%s (errno tested by %s)' % (base(name), ', '.join(who)), (offenders[0][0] if offenders else F.blocks[0][0]).loc(),
+                  '%d i/o calls; every later call on a path to a return preserves errno' % len(ios) if not offenders else 'after the i/o call, %s is called (line %s) and does not preserve errno: when it fails itself (log on a full file-system) the caller sees its errno instead of EIO, counts a generic error and does not mark the stripe bad' % (offenders[0][1], offenders[0][0].line),
+                  function=base(name), construct='errno preserved until the caller tests it')
